@@ -102,9 +102,9 @@ Proof.
   - rewrite app_length. lia.
   - destruct (nth_error h src) as [x|]; [|lia]. destruct (apply_cop K h c x); [rewrite app_length; lia|lia].
   - destruct (nth_error h i); [rewrite hset_length; lia|lia].
-  - destruct (nth_error h ci) as [[p|s|ob cs|vl]|]; try lia. destruct (nth_error h mi) as [[p|s|ob' cs'|vl']|]; try lia.
+  - destruct (nth_error h ci) as [[p|s|ob cs|vl|oid]|]; try lia. destruct (nth_error h mi) as [[p|s|ob' cs'|vl'|oid']|]; try lia.
     destruct copy; rewrite ?hset_length; lia.
-  - destruct (nth_error h ci) as [[p|s|ob cs|vl]|]; try lia. destruct (nth_error h mi) as [[p|s|ob' cs'|vl']|]; try lia.
+  - destruct (nth_error h ci) as [[p|s|ob cs|vl|oid]|]; try lia. destruct (nth_error h mi) as [[p|s|ob' cs'|vl'|oid']|]; try lia.
     rewrite hset_length. lia.
 Qed.
 
@@ -150,7 +150,7 @@ Proof.
   assert (hstep K h (HCopy src CCopy) = h ++ [x]) as -> by (cbn [hstep apply_cop]; rewrite Hx; reflexivity).
   cbn [hstep]. rewrite nth_error_app2 by lia. rewrite Nat.sub_diag. cbn [nth_error].
   assert (apply_iop K e x = y) as ->.
-  { destruct c; inversion Hc; subst e; destruct x as [p|s|ob cs|vl]; cbn [apply_cop apply_iop] in *; try discriminate;
+  { destruct c; inversion Hc; subst e; destruct x as [p|s|ob cs|vl|oid]; cbn [apply_cop apply_iop] in *; try discriminate;
       try (inversion Hy; reflexivity).
     destruct (apply K o s); [inversion Hy; reflexivity|discriminate]. }
   clear. induction h as [|a r IH]; cbn [app length hset]; [reflexivity|]. f_equal. exact IH.
@@ -221,16 +221,16 @@ Proof.
     + apply copy_receiver_unchanged. assumption.
     + apply edit_frame. intros E. apply Ho. exact E.
     + cbn [edits_cell] in Ho. cbn [hstep].
-      destruct (nth_error h ci) as [[p|s|ob cs|vl]|] eqn:Ec; try reflexivity.
-      destruct (nth_error h mi) as [[p|s|ob' cs'|vl']|] eqn:Em; try reflexivity.
+      destruct (nth_error h ci) as [[p|s|ob cs|vl|oid]|] eqn:Ec; try reflexivity.
+      destruct (nth_error h mi) as [[p|s|ob' cs'|vl'|oid']|] eqn:Em; try reflexivity.
       destruct copy.
       * apply hset_other. intros E. apply Ho. left. exact E.
       * rewrite !hset_other; [reflexivity| |].
         -- intros E. apply Ho. left. exact E.
         -- intros E. apply Ho. right. split; [reflexivity|exact E].
     + cbn [edits_cell] in Ho. cbn [hstep].
-      destruct (nth_error h ci) as [[p|s|ob cs|vl]|] eqn:Ec; try reflexivity.
-      destruct (nth_error h mi) as [[p|s|ob' cs'|vl']|] eqn:Em; try reflexivity.
+      destruct (nth_error h ci) as [[p|s|ob cs|vl|oid]|] eqn:Ec; try reflexivity.
+      destruct (nth_error h mi) as [[p|s|ob' cs'|vl'|oid']|] eqn:Em; try reflexivity.
       apply hset_other. exact Ho.
   - pose proof (hstep_length_mono K h o). lia.
   - intros o' Ho'. apply H. right. assumption.
